@@ -139,12 +139,12 @@ func TestCookies(t *testing.T) {
 const sigJoinReplay = "recorded-join-message-is-accepted-again"
 
 var recAdv = kit.NewRecorder("C15", "adversary",
-	"an adversary that does not know the cookie faces a real Accept (as dialling side), a real Start or a real Join (as accepting side). Its script of 1-5 steps is built from the transcripts of 1-2 earlier honest sessions with the same cookie (own role and the other role, Hello and Join variants): replay message i verbatim, replay it with generated byte mutations / truncation / extension, reflect what the victim just sent, send generated garbage with a valid frame header, or stay silent; "+
+	"an adversary that does not know the cookie faces a real Accept (as dialling side), a real Start or a real Join (as accepting side). Its script of 1-5 steps is built from the transcripts of 1-2 earlier honest sessions with the same cookie (own role and the other role, Hello and Join variants): replay message i verbatim, replay it with generated byte mutations / truncation / extension, reflect what the victim just sent, replay a recorded message with one field rewritten (fixed values, or the digest / salt the victim itself just sent), send generated garbage with a valid frame header, or stay silent; "+
 		"oracle: the victim's Accept / Start / Join never returns success; "+
 		"non-trivial = the script got past the victim's first message check (the victim answered at least once); distinct by script")
 
 type advStep struct {
-	kind   int // 0 replay 1 mutated replay 2 reflect 3 garbage 4 silence 5 recorded message with one field rewritten
+	kind   int // 0 replay 1 mutated replay 2 reflect 3 garbage 4 silence 5 recorded message with one field rewritten 6 recorded message with one field taken from what the victim just sent
 	from   int // which recorded message
 	flips  []int
 	cutTo  int
@@ -183,6 +183,52 @@ func tweakMessage(rec []byte, st advStep) []byte {
 	default:
 		return nil
 	}
+	buf := lib.TakeBuffer()
+	defer lib.ReleaseBuffer(buf)
+	buf.Allocate(6)
+	if err := edf.Encode(rv.Interface(), buf, edf.Options{}); err != nil {
+		return nil
+	}
+	out := append([]byte(nil), buf.B...)
+	copy(out[:2], rec[:2])
+	binary.BigEndian.PutUint32(out[2:6], uint32(len(out)-6))
+	return out
+}
+
+var echoFields = []string{"Digest", "Salt", "DigestCert"}
+
+// echoMessage is tweakMessage with a value lifted from the victim's own last message (its
+// digest, salt or certificate digest): everything the victim says is known to the adversary.
+func echoMessage(rec []byte, victimSaid []byte, st advStep) []byte {
+	if len(rec) < 7 || len(victimSaid) < 7 {
+		return nil
+	}
+	v, _, err := edf.Decode(victimSaid[6:], edf.Options{})
+	if err != nil || v == nil {
+		return nil
+	}
+	src := reflect.ValueOf(v)
+	if src.Kind() != reflect.Struct {
+		return nil
+	}
+	sf := src.FieldByName(echoFields[st.value%len(echoFields)])
+	if !sf.IsValid() || sf.Kind() != reflect.String {
+		return nil
+	}
+	m, _, err := edf.Decode(rec[6:], edf.Options{})
+	if err != nil || m == nil {
+		return nil
+	}
+	rv := reflect.New(reflect.TypeOf(m)).Elem()
+	rv.Set(reflect.ValueOf(m))
+	if rv.Kind() != reflect.Struct {
+		return nil
+	}
+	f := rv.FieldByName(tweakFields[st.field%len(tweakFields)])
+	if !f.IsValid() || f.Kind() != reflect.String {
+		return nil
+	}
+	f.SetString(sf.String())
 	buf := lib.TakeBuffer()
 	defer lib.ReleaseBuffer(buf)
 	buf.Allocate(6)
@@ -250,17 +296,21 @@ func propAdversary(t *rapid.T) {
 		// each one verbatim or with one field rewritten (mostly the cookie proofs)
 		n = 0
 		for i := range own {
-			s := advStep{kind: rapid.SampledFrom([]int{0, 0, 0, 5, 5}).Draw(t, "step"), from: -1 - i}
+			s := advStep{kind: rapid.SampledFrom([]int{0, 0, 0, 0, 5, 5, 2, 6, 6}).Draw(t, "step"), from: -1 - i}
 			if s.kind == 5 {
 				s.field = rapid.SampledFrom([]int{0, 0, 0, 0, 1, 2, 3, 4, 5, 6}).Draw(t, "field")
 				s.value = rapid.IntRange(0, len(tweakStrings)-1).Draw(t, "value")
+			}
+			if s.kind == 6 {
+				s.field = rapid.SampledFrom([]int{0, 0, 0, 1, 2}).Draw(t, "field")
+				s.value = rapid.SampledFrom([]int{0, 0, 1, 2}).Draw(t, "echo")
 			}
 			steps = append(steps, s)
 		}
 	}
 	for i := 0; i < n; i++ {
-		s := advStep{kind: rapid.IntRange(0, 5).Draw(t, "step")}
-		if s.kind == 5 {
+		s := advStep{kind: rapid.IntRange(0, 6).Draw(t, "step")}
+		if s.kind == 5 || s.kind == 6 {
 			s.field = rapid.IntRange(0, len(tweakFields)-1).Draw(t, "field")
 			s.value = rapid.IntRange(0, len(tweakStrings)-1).Draw(t, "value")
 		}
@@ -322,9 +372,33 @@ func propAdversary(t *rapid.T) {
 	}()
 	answered := 0
 	isJoinReplay := false
+	lastSeen := 0
 	for _, s := range steps {
 		var out []byte
+		if s.kind == 2 || s.kind == 6 {
+			// these need the victim's latest message: give it a moment to arrive
+			for i := 0; i < 60; i++ {
+				gmu.Lock()
+				n := len(got)
+				gmu.Unlock()
+				if n > lastSeen {
+					break
+				}
+				time.Sleep(500 * time.Microsecond)
+			}
+		}
+		gmu.Lock()
+		lastSeen = len(got)
+		gmu.Unlock()
 		switch s.kind {
+		case 6:
+			gmu.Lock()
+			var said []byte
+			if len(got) > 0 {
+				said = got[len(got)-1]
+			}
+			gmu.Unlock()
+			out = echoMessage(pick(s), said, s)
 		case 0:
 			out = pick(s)
 		case 1:
